@@ -18,6 +18,9 @@ pub struct PropertyDef {
     pub crash_is_violation: bool,
     pub n_cases: u64,
     pub determinism_sample: u64,
+    /// a harness-level inconsistency found before the run (e.g. the fidelity batch): reported as
+    /// HARNESS-ERROR (exit 2) only if the run itself finds no violation that explains it
+    pub deferred_error: Option<String>,
 }
 
 pub struct Known {
@@ -76,6 +79,7 @@ pub fn confirm_replay(path: &str) -> Option<bool> {
 
 pub fn run_check(def: &PropertyDef, tier: &str, seed: u64) -> i32 {
     let t0 = Instant::now();
+    let mut deferred: Vec<String> = def.deferred_error.iter().cloned().collect();
     println!("VERIF_SEED={seed} property={} tier={tier}", def.id);
     if let Err(e) = crate::seams::liveness_selftest() {
         println!("HARNESS-ERROR: seam liveness self-test failed: {e}");
@@ -134,11 +138,12 @@ pub fn run_check(def: &PropertyDef, tier: &str, seed: u64) -> i32 {
                         if let (Some(a), Some(b)) = (pr.results.get(&i), m.digests.get(&i)) {
                             det_checked += 1;
                             if &a.digest != b {
-                                println!(
-                                    "HARNESS-ERROR: nondeterminism: case {i} digest {} (16 workers) vs {} (fresh process)",
-                                    b, a.digest
-                                );
-                                return 2;
+                                // deferred: state leaking between cases of one worker process is
+                                // itself a symptom the property checks may explain (exit 1 then)
+                                deferred.push(format!(
+                                    "nondeterminism: case {i} digest {} (in the {}-worker pool) vs {} (fresh process)",
+                                    b, workers, a.digest
+                                ));
                             }
                         }
                     }
@@ -219,6 +224,16 @@ pub fn run_check(def: &PropertyDef, tier: &str, seed: u64) -> i32 {
         }
         let path = write_replay(def.id, seed, *idx, n, &v.replay);
         let confirmed = confirm_replay(&path);
+        if confirmed == Some(false) {
+            // a disagreement that a fresh process cannot reproduce from its replay file is not
+            // reported as a violation: it is evidence of state leaking between cases of a worker
+            // process (deferred: harness error unless a reproducible violation explains it)
+            let _ = std::fs::remove_file(&path);
+            new_violations -= 1;
+            *c -= 1;
+            deferred.push(format!("case {idx}: {} ({}) did not reproduce from its replay file in a fresh process", v.class, v.what));
+            continue;
+        }
         println!("VIOLATION property={} replay={}", def.id, path);
         println!(
             "  class={} signature={} replay_in_fresh_process={}",
@@ -264,7 +279,7 @@ pub fn run_check(def: &PropertyDef, tier: &str, seed: u64) -> i32 {
             "case_families": m.families,
             "counters": m.counters,
             "distinct_sets": sets,
-            "determinism": { "cases_rerun_twice_in_process_and_in_fresh_process": det_checked, "worker_counts_compared": [workers, 1], "divergences": 0 },
+            "determinism": { "cases_rerun_twice_in_process_and_in_fresh_process": det_checked, "worker_counts_compared": [workers, 1], "divergences": deferred.len() },
             "components": def.components,
             "workers": workers,
             "known_findings_hit": known_hits,
@@ -293,7 +308,15 @@ pub fn run_check(def: &PropertyDef, tier: &str, seed: u64) -> i32 {
     );
     let _ = std::io::stdout().flush();
     if new_violations > 0 {
+        for d in deferred.iter().take(3) {
+            println!("NOTE: {}", d.chars().take(400).collect::<String>());
+        }
         1
+    } else if !deferred.is_empty() {
+        for d in deferred.iter().take(3) {
+            println!("HARNESS-ERROR: {}", d.chars().take(600).collect::<String>());
+        }
+        2
     } else {
         0
     }
